@@ -79,9 +79,20 @@ def run_case(c, ci):
             if ts.get("handlers"):
                 # C11: several handlers, each with its own events / predicate / local guard
                 for hi, hs in enumerate(ts["handlers"]):
-                    def h(self, ret, node, frame, evt, local_guard, hi=hi, stream=stream, ti=ti, **kw):
+                    busy = [False]
+
+                    def h(self, ret, node, frame, evt, local_guard, hi=hi, stream=stream, ti=ti, calls=hs.get("calls"), busy=busy, **kw):
                         stream.append([evt.value, node_pos(node), ref_instr.canon(ret), hi])
                         glob.append([ti, evt.value, node_pos(node), hi])
+                        if calls and not busy[0] and len(stream) % 3 == 1:
+                            # an observing handler that runs instrumented code of the program (C05 / C16): nothing it emits may be delivered
+                            fn = frame.f_globals.get(calls)
+                            if callable(fn):
+                                busy[0] = True
+                                try:
+                                    fn()
+                                finally:
+                                    busy[0] = False
                         return None
                     h.__name__ = "h%d" % hi
                     evs = tuple(pyc.TraceEvent(e) for e in hs["events"])
